@@ -1,7 +1,7 @@
 //! C17 - Gradients are read back by name, in the order asked for.
 
 use crate::engine::*;
-use crate::props::adcommon::NAMES;
+use crate::props::adcommon::{name_of, NAMES};
 use crate::util::*;
 use proptest::prelude::*;
 use rateslib::dual::{Dual, Dual2, Gradient1, Gradient2};
@@ -23,7 +23,7 @@ impl Num {
         self.layout.len()
     }
     fn names(&self) -> Vec<String> {
-        self.layout.iter().map(|i| NAMES[*i as usize].to_string()).collect()
+        self.layout.iter().map(|i| name_of(*i)).collect()
     }
     fn d1v(&self) -> Vec<f64> {
         (0..self.n()).map(|i| self.d1.get(i).map_or(0.0, |f| f.0)).collect()
@@ -34,7 +34,9 @@ impl Num {
         for i in 0..n {
             for j in 0..n {
                 let (a, b) = if self.symmetric && j < i { (j, i) } else { (i, j) };
-                m[i * n + j] = self.d2.get(a * 5 + b).map_or(0.0, |f| f.0);
+                // (short lists index a fixed 5 x 5 block, wide lists an n x n block)
+                let stride = if n <= 5 { 5 } else { n };
+                m[i * n + j] = self.d2.get(a * stride + b).map_or(0.0, |f| f.0);
             }
         }
         m
@@ -125,6 +127,50 @@ fn case_strategy() -> impl Strategy<Value = Case> {
     })
 }
 
+/// Wide variable lists (curves with many nodes): 17-40 names out of 100; the request is the stored
+/// list with two names swapped, with one name replaced by an absent one, reversed, or itself.
+fn wide_case_strategy() -> impl Strategy<Value = Case> {
+    let wide_num = || (moderate(), proptest::collection::vec(any::<u16>(), 100), 17usize..=40, proptest::collection::vec(coeff(), 40), proptest::collection::vec((any::<u16>(), any::<u16>(), coeff()), 4..30), any::<bool>()).prop_map(|(real, keys, n, d1, h, symmetric)| {
+        let mut idx: Vec<u8> = (0u8..100).collect();
+        idx.sort_by_key(|i| keys[*i as usize]);
+        idx.truncate(n);
+        let mut d2 = vec![Fl(0.0); n * n];
+        for (i, j, c) in h {
+            let (i, j) = (pick(i, n), pick(j, n));
+            d2[i * n + j] = c;
+            if symmetric {
+                d2[j * n + i] = c;
+            }
+        }
+        d2[1] = Fl(0.375); // (0, 1): content among the leading names
+        if symmetric {
+            d2[n] = Fl(0.375);
+        }
+        Num { real, layout: idx, d1: d1[..n].to_vec(), d2, symmetric }
+    });
+    (wide_num(), wide_num(), 0u8..5, any::<u16>(), any::<u16>(), 100u8..120).prop_map(|(f, mut g, mode, s1, s2, absent)| {
+        let n = f.layout.len();
+        let mut request = f.layout.clone();
+        match mode {
+            0 => {}
+            1 => request.reverse(),
+            2 => request.swap(pick(s1, n - 16), pick(s2, n)),          // an early name against any other
+            3 => request.swap(pick(s1, n - 16), pick(s2, n - 16).max(1) - 1), // two early names
+            _ => request[pick(s1, n - 16)] = absent,                 // an early name replaced by an absent one
+        }
+        // g on f's list with two early names swapped: the product rule then meets the same layouts
+        if mode >= 2 {
+            let mut gl = f.layout.clone();
+            gl.swap(0, pick(s2, n - 16).max(1));
+            g.layout = gl;
+            g.d1.truncate(n);
+            while g.d1.len() < n { g.d1.push(Fl(0.25)); }
+            g.d2 = (0..n * n).map(|k| g.d2.get(k).cloned().unwrap_or(Fl(0.0))).collect();
+        }
+        Case { f, g, request }
+    })
+}
+
 impl Property for C17 {
     type Case = Case;
     fn id(&self) -> &'static str {
@@ -134,7 +180,7 @@ impl Property for C17 {
     fn check(&self, c: &Case) -> Verdict {
         let mut v = Verdict::new();
         let req = &c.request;
-        let req_names: Vec<String> = req.iter().map(|i| NAMES[*i as usize].to_string()).collect();
+        let req_names: Vec<String> = req.iter().map(|i| name_of(*i)).collect();
         let absent = req.iter().any(|r| !c.f.layout.contains(r));
         let fast = *req == c.f.layout;
         v.label(if fast { "path:fast (request == stored list)" } else { "path:lookup" });
@@ -251,11 +297,11 @@ impl Property for C17 {
     }
 
     fn plan(&self, tier: Tier) -> Vec<Stage<Case>> {
-        vec![Stage::random("random", tier.pick(1_000_000, 25_000_000), case_strategy)]
+        vec![Stage::random("random", tier.pick(1_000_000, 25_000_000), case_strategy), Stage::random("wide-lists", tier.pick(20_000, 600_000), wide_case_strategy)]
     }
 
     fn rule(&self) -> String {
-        "random (stored number on a layout of 0-5 of 8 names with arbitrary coefficients, symmetric or non-symmetric second-order storage; a second number; a requested list of distinct names: the stored list itself (fast path), reversed, subset, superset with absent names inserted at any position, free list, empty). Oracle: gradient1 = stored coefficient or 0, gradient2 = 2 x stored or 0, both exact and in the requested order; gradient1_manifold entries have value = first derivative, own gradient = Hessian row (zeros for an absent name), zero second-order part; product rule on manifolds == Hessian of the product (1e-12 x sum of absolute terms). Non-trivial: requested order != stored order and an absent name is requested.".into()
+        "random (stored number on a layout of 0-5 of 8 names with arbitrary coefficients, symmetric or non-symmetric second-order storage; a second number; a requested list of distinct names: the stored list itself (fast path), reversed, subset, superset with absent names inserted at any position, free list, empty). Wide stage: stored numbers on 17-40 of 100 names, request = stored list / reversed / two names swapped (early ones in particular) / an early name replaced by an absent one. Oracle: gradient1 = stored coefficient or 0, gradient2 = 2 x stored or 0, both exact and in the requested order; gradient1_manifold entries have value = first derivative, own gradient = Hessian row (zeros for an absent name), zero second-order part; product rule on manifolds == Hessian of the product (1e-12 x sum of absolute terms). Non-trivial: requested order != stored order and an absent name is requested.".into()
     }
 
     fn floors(&self, tier: Tier) -> Vec<Floor> {
